@@ -200,6 +200,20 @@ def _retarget_sym_expr(
         )
 
 
+def _is_mips_direct_call(
+    block: gtirb.ByteBlock, instruction: capstone.CsInsn
+) -> bool:
+    """
+    Capstone does not put MIPS jal / bal into its call group.
+    """
+    return (
+        block.module is not None
+        and block.module.isa == gtirb.Module.ISA.MIPS32
+        and instruction.id
+        in (capstone.mips.MIPS_INS_JAL, capstone.mips.MIPS_INS_BAL)
+    )
+
+
 def _sym_expr_access_type(
     block: gtirb.ByteBlock,
     offset: int,
@@ -218,8 +232,10 @@ def _sym_expr_access_type(
             for inst in decoder.get_instructions(block)
             if inst.address <= expr_addr < (inst.address + inst.size)
         )
-        if instruction.group(capstone.CS_GRP_JUMP) or instruction.group(
-            capstone.CS_GRP_CALL
+        if (
+            instruction.group(capstone.CS_GRP_JUMP)
+            or instruction.group(capstone.CS_GRP_CALL)
+            or _is_mips_direct_call(block, instruction)
         ):
             return _SymExprAttributeRule.AccessType.CONTROL_FLOW
         else:
